@@ -282,9 +282,97 @@ def datetimes_in(c, out):
             datetimes_in(i, out)
 
 
+def timestamps_in(v):
+    """Timestamp inputs of a field value in wire order."""
+    if isinstance(v, (datetime.datetime, time.struct_time)):
+        yield v
+    elif isinstance(v, dict):
+        for key in sorted(v):
+            for x in timestamps_in(v[key]):
+                yield x
+    elif isinstance(v, list):
+        for i in v:
+            for x in timestamps_in(i):
+                yield x
+
+
+def frame_timestamps(op):
+    f = op['frame']
+    out = []
+    if f['k'] == 'method':
+        from sim import gen
+        c = gen.classes()[f['cls']]
+        for s in c.__slots__:
+            if c.amqp_type(s) == 'table' and f['args'].get(s) is not None:
+                out.extend(timestamps_in(from_desc(f['args'][s])))
+    elif f['k'] == 'header':
+        P = lib.commands.Basic.Properties
+        for s in P.__slots__:
+            if s in f['props']:
+                if P.amqp_type(s) == 'table':
+                    out.extend(timestamps_in(from_desc(f['props'][s])))
+                elif P.amqp_type(s) == 'timestamp':
+                    out.append(from_desc(f['props'][s]))
+    return out
+
+
+def check_c15_embedded(run, rec, got):
+    """Every timestamp inside an encoded table / frame denotes the instant
+    the property assigns to its input (not only: is the same in every zone)."""
+    op = rec.op
+    k = op['op']
+    if got[0] != 'bytes':
+        return
+    try:
+        if k == 'marshal':
+            inputs = frame_timestamps(op)
+        elif k == 'enc' and op['fn'] in ('field_table', 'field_array',
+                                         'encode_table_value'):
+            inputs = list(timestamps_in(from_desc(op['v'])))
+        else:
+            return
+    except Exception:
+        return
+    if not inputs:
+        return
+    buf = bytes.fromhex(got[1])
+    fields = []
+    try:
+        if k == 'marshal':
+            fields = wiremap.walk_frame(buf)
+        elif op['fn'] == 'field_table':
+            wiremap.walk_table(buf, 0, fields)
+        elif op['fn'] == 'field_array':
+            wiremap.walk_array(buf, 0, fields)
+        else:
+            wiremap.walk_value(buf, 0, fields)
+    except wiremap.WalkError:
+        run.probe('c15_unwalkable_output')
+        return
+    emitted = [int.from_bytes(buf[f[0]:f[0] + 8], 'big') for f in fields
+               if f[2] == 'timestamp']
+    run.oracle('C15.embedded_instant')
+    if len(emitted) != len(inputs):
+        run.probe('c15_timestamp_count_mismatch')
+        return
+    for v, e in zip(inputs, emitted):
+        secs = utc_seconds(v)
+        if 0 <= secs < 2 ** 64 and e != secs:
+            kind = 'struct_time' if isinstance(v, time.struct_time) else (
+                'naive' if v.tzinfo is None or v.utcoffset() is None
+                else 'aware')
+            run.fail('C15', 'instant', ['encode-instant-embedded', kind],
+                     '%s carrying %r under zone %s encodes the timestamp as '
+                     '%d; the instant is %d seconds after the epoch' % (
+                         'frame' if k == 'marshal' else op['fn'], v,
+                         rec.zone, e, secs))
+            return
+
+
 def check_c15(run, rec, got):
     op = rec.op
     k = op['op']
+    check_c15_embedded(run, rec, got)
     if k == 'enc' and op['fn'] == 'timestamp':
         v = from_desc(op['v'])
         if isinstance(v, (datetime.datetime, time.struct_time)):
